@@ -223,6 +223,10 @@ def main(pid, fn):
     except Exception:
         status, rc = "machinery_error", 2
         print("MACHINERY-ERROR property=%s:\n%s" % (pid, traceback.format_exc()))
+    if rc == 2 and ctx.violations:
+        # violations that were established before the machinery failed stand (e.g. a binding self-test run on traces of a faulty library)
+        ctx.notes.append("machinery error after %d violation(s) had been established; the violations stand" % len(ctx.violations))
+        status, rc = "violation", 1
     ctx.write_evidence(status)
     if not a.keep and rc == 0:
         ctx.cleanup()
